@@ -270,7 +270,7 @@ func genSchedOp(r *rand.Rand, n int, next *int) string {
 	case 0, 1, 2, 3:
 		return "pop"
 	case 4, 5:
-		if r.Intn(3) == 0 {
+		if r.Intn(2) == 0 {
 			return "push " + val() + " " + val()
 		}
 		return "push " + val()
@@ -304,6 +304,9 @@ func genSched(r *rand.Rand, id string, tier string) string {
 		if c.Cap == 0 {
 			c.Cap = 1
 		}
+	}
+	if r.Intn(4) == 0 {
+		c.Ppf = []int{4, 4, 1, 3}[r.Intn(4)] // a push policy: Push must stay one atomic call on that path too
 	}
 	if r.Intn(6) == 0 {
 		c.Opt |= fNeg
